@@ -32,6 +32,7 @@ class Fuzz:
                   "same_id_different_content_decoded": 0}
         self.distinct = 0
         self.samples = []
+        self.survivors = []
 
     def v(self, key, msg, w):
         if sum(1 for x in self.viol if x["key"] == key) < 3:
@@ -69,10 +70,69 @@ class Fuzz:
                 c["rejected_by"][r] = c["rejected_by"].get(r, 0) + 1
                 if fault[0] == "flip" and fault[1] // 8 < header_len and "hash >= target" not in str(e) and name == "without_block":
                     c["header_flips_surviving_pow"] += 1
+                    # (for the two-thread lane: copies refused only by the proof-of-work evidence comparison come first)
+                    if "evidence" in str(e).lower():
+                        self.survivors.insert(0, (mutated, fault))
+                    elif len(self.survivors) < 6:
+                        self.survivors.append((mutated, fault))
                 continue
             self.v("altered-block-accepted" + (":same-id" if same_id else ":other-id"),
                    "fault %s: altered block accepted by full validation on the state %s (same id: %s)" % (
                        fault, name.replace("_", " "), same_id), dict(w_base, fault=fault))
+
+    def two_threads(self, Block, raw, states, now, w_base, rng, npoints=24):
+        """the networking thread validates an altered copy while another thread (the miner watcher adopting the block it found,
+        or a second validation) works on the genuine block: thread A -- full validation of an altered copy that survives the
+        context-free checks -- is held at a source location of the validation and codec modules while thread B validates the
+        genuine block; the altered copy must be refused and the genuine block accepted"""
+        survivors, self.survivors = self.survivors, []
+        cs = dict(states).get("without_block")
+        if not survivors or cs is None or getattr(self, "pre", None) is None:
+            return
+        from skv import preempt
+        pre, c = self.pre, self.c
+        self.state = preempt.ModuleState(self.mods)     # (the state the modules are in NOW is what every trial starts from)
+        pre.resume()
+        try:
+            genuine = Block.deserialize(raw)
+            for mutated, fault in survivors[:2]:
+                def ja(_ctx, m=mutated):
+                    blk = Block.deserialize(m)
+                    cs.add_block(blk, now)
+                    return "accepted"
+                # what the other thread does meanwhile: a whole validation of the genuine block, or one of the steps every
+                # thread of the node performs on a block it holds (the miner watcher encodes the summary it hands to its miner
+                # processes, peers are served the encoded block / header)
+                self.b_kind = getattr(self, "b_kind", 0) + 1
+                kind = ["validate", "encode-summary", "encode-block", "encode-header"][self.b_kind % 4]
+
+                def jb(_ctx, kind=kind):
+                    if kind == "encode-summary":
+                        genuine.header.summary.serialize()
+                    elif kind == "encode-block":
+                        genuine.serialize()
+                    elif kind == "encode-header":
+                        genuine.header.serialize()
+                    else:
+                        cs.add_block(Block.deserialize(raw), now)
+                    return "accepted"
+                c["two_thread_other_thread_" + kind] = c.get("two_thread_other_thread_" + kind, 0) + 1
+                for t in preempt.trials(pre, self.state, lambda: None, ja, jb, rng, npoints):
+                    c["two_thread_trials"] = c.get("two_thread_trials", 0) + 1
+                    if t["want_a"] == "accepted" or t["want_b"] != "accepted":
+                        continue
+                    w = dict(w_base, fault=fault, two_threads=True, switch_at_event=t["k"], of_events=t["total"])
+                    for who, got in (("thread A", t["a"]), ("afterwards", t["after_a"]), ("later", t["later_a"])):
+                        if got == "accepted":
+                            self.v("altered-block-accepted:two-threads", "fault %s: the altered block is ACCEPTED by full validation (%s) when "
+                                   "another thread validates the genuine block at the same time (switch at event %d of %d)" % (
+                                       fault, who, t["k"], t["total"]), w)
+                    for who, got in (("thread B", t["b"]), ("afterwards", t["after_b"]), ("later", t["later_b"])):
+                        if got != "accepted":
+                            self.v("genuine-block-refused:two-threads", "the genuine block is refused (%r, %s) when another thread validates an "
+                                   "altered copy at the same time (switch at event %d of %d)" % (got, who, t["k"], t["total"]), w)
+        finally:
+            pre.pause()
 
     def fuzz_block(self, Block, raw, bid, states, now, w_base, header_len, rng=None, sample_bits=None):
         c = self.c
@@ -171,8 +231,10 @@ def run_generated(fz, rng, ntrees, nblocks, max_block_bytes):
             if bid not in set(world.chain.ancestors(world.cs.current_chain_hash)):
                 fz.c["fork_blocks"] += 1
             w = {"chain": chain_hex, "block": raw.hex(), "period": period or ref.RETARGET_PERIOD}
+            fz.survivors = []
             fz.fuzz_block(Block, raw, bid, [("without_block", before[bid]), ("with_block", world.cs)], rb.ts, w,
                           len(rb.header_enc()))
+            fz.two_threads(Block, raw, [("without_block", before[bid])], rb.ts, w, rng)
             if len(fz.samples) < 2:
                 fz.samples.append({"block_bytes": len(raw), "transactions": len(rb.txs), "height": rb.height,
                                    "faults": len(raw) * 9, "retarget_period": period or ref.RETARGET_PERIOD})
@@ -234,7 +296,28 @@ def run_shard(spec):
         env.boot()
         rng = random.Random("c06/%d/%d" % (spec["seed"], spec["shard"]))
         quick = spec["tier"] == "quick"
-        run_generated(fz, rng, ntrees=1 if quick else 16, nblocks=rng.choice([8, 12]), max_block_bytes=1600 if quick else 4000)
+        from skv import preempt
+        import skepticoin.consensus as cons
+        import skepticoin.coinstate as csm
+        import skepticoin.pow as pw
+        import skepticoin.datatypes as dt
+        import skepticoin.signing as sg
+        import skepticoin.merkletree as mt
+        import skepticoin.hash as hm
+        import skepticoin.serialization as ser
+        import skepticoin.balances as bal
+        mods = [cons, csm, pw, dt, sg, mt, hm, ser, bal]
+        fz.pre = preempt.Preempter(mods)
+        if fz.pre.ok:
+            fz.pre.pause()
+            fz.mods = mods
+        else:
+            fz.pre = None
+        try:
+            run_generated(fz, rng, ntrees=1 if quick else 16, nblocks=rng.choice([8, 12]), max_block_bytes=1600 if quick else 4000)
+        finally:
+            if fz.pre is not None:
+                fz.pre.close()
     return {"evaluations": fz.c["bit_flips"] + fz.c["truncations"], "distinct": fz.distinct, "violations": fz.viol,
             "counters": fz.c, "samples": fz.samples, "exhaustive": True}
 
